@@ -733,15 +733,19 @@ func (w *world) step() {
 			if mode == "fresh" {
 				name = w.childName(n)
 				args = append(args, name)
-				for i := rapid.IntRange(0, 2).Draw(t, "nopts"); i > 0; i-- {
-					s := genSetting(t, false)
-					if o := toOpt(s); o != nil {
-						opts = append(opts, s)
-						args = append(args, o)
-					}
-				}
 			} else if mode == "empty" {
 				args = append(args, "")
+			}
+			// options follow the name - or come first when no name is given at all
+			for i := rapid.IntRange(0, 2).Draw(t, "nopts"); i > 0; i-- {
+				s := genSetting(t, false)
+				if o := toOpt(s); o != nil {
+					opts = append(opts, s)
+					args = append(args, o)
+				}
+			}
+			if mode == "noargs" && len(opts) > 0 {
+				w.labels["anonymous-child-with-options"] = true
 			}
 			w.hist = append(w.hist, fmt.Sprintf("#%d.New(%s %q,%v)", n.id, mode, name, opts))
 			got := n.lg.New(args...)
@@ -769,6 +773,9 @@ func (w *world) step() {
 				if got != prev.entry {
 					w.fail("#%d.WithSkip(%d) must keep one child per skip count, got a different logger", n.id, s.skip)
 				}
+				// "returns a child carrying the new setting": also the kept child, whatever was done to it meanwhile
+				prev.skip = s.skip
+				w.labels["withskip-returns-kept-child"] = true
 				break
 			}
 			if w.find(got) != nil {
@@ -792,10 +799,7 @@ func (w *world) step() {
 		}
 		w.labels["with"] = true
 	case k <= 9: // Set*: changes the receiver only and returns it
-		// SetSkip is not drawn for a child kept by WithSkip(n): whether a later WithSkip(n) on the parent
-		// re-affirms n on that child is not stated
-		isSkipKid := n.parent != nil && n.parent.skipKids[n.skip] == n
-		s := genSetting(t, !isSkipKid)
+		s := genSetting(t, true)
 		w.hist = append(w.hist, fmt.Sprintf("#%d.Set%v", n.id, s))
 		got := w.doSet(n, s)
 		if n.entry == nil && got != nil {
@@ -812,6 +816,20 @@ func (w *world) step() {
 			n.addStyle = false
 		}
 		w.labels["set"] = true
+		if s.kind == "skip" && n.parent != nil {
+			// the receiver may be the child its parent keeps for some WithSkip(k): asking the parent for that k
+			// again must hand out this very child, carrying skip k once more
+			for key, kept := range n.parent.skipKids {
+				if kept == n && rapid.Bool().Draw(t, "askParentAgain") {
+					w.hist = append(w.hist, fmt.Sprintf("#%d.WithSkip(%d)[kept #%d]", n.parent.id, key, n.id))
+					if got := n.parent.lg.WithSkip(key); got != n.entry {
+						w.fail("#%d.WithSkip(%d) must keep one child per skip count, got a different logger", n.parent.id, key)
+					}
+					n.skip = key
+					w.labels["withskip-returns-kept-child"] = true
+				}
+			}
+		}
 	case k == 10: // package-level SetLevel: the default logger and future package-level loggers
 		l := rapid.SampledFrom(vlib.Builtins).Draw(t, "pkgLevel")
 		w.hist = append(w.hist, fmt.Sprintf("slog.SetLevel(%v)", l))
